@@ -219,12 +219,29 @@ fn prf_round(rng: &mut Rng, out: &mut Out, big: bool, emit_cases: bool) {
     // pools
     let keys: Vec<[u8; 16]> = (0..2 + rng.below(2)).map(|_| random_key(rng)).collect();
     let ivs: Vec<u64> = (0..3).map(|_| pick_iv(rng)).collect();
-    let types: Vec<Type> = (0..4).map(|_| prf_type(rng, big)).collect();
+    let mut types: Vec<Type> = (0..4).map(|_| prf_type(rng, big)).collect();
     let perm_ns: Vec<u64> = (0..3)
         .map(|_| if big { *rng.pick(&[255u64, 256, 257, 258, 300, 600]) } else { *rng.pick(&[1u64, 2, 3, 4, 5, 8, 17, 64, 100]) })
         .collect();
+    // output types that coincide with a permutation's result type or with each other in shape and
+    // byte size (a cache keyed more coarsely than (key, counter, kind of call, type) shows up here)
+    let n0 = perm_ns[0];
+    let base = types.len();
+    types.push(array_type(vec![n0], UINT64));
+    types.push(array_type(vec![n0], INT64));
+    types.push(array_type(vec![2 * n0], UINT32));
+    types.push(tuple_type(vec![array_type(vec![n0], UINT64)]));
     // node per distinct call (type inference may reject a type: skip it)
     let mut calls: Vec<Call> = vec![];
+    if rng.chance(2, 3) {
+        let k = keys[0].to_vec();
+        let iv = ivs[0];
+        calls.push(Call::Perm(k.clone(), iv, n0));
+        for ti in base..base + 4 {
+            if rng.chance(2, 3) { calls.push(Call::Prf(k.clone(), iv, ty(&types[ti]), ti)); }
+        }
+        out.stat("prf:directed-type-coincidence");
+    }
     let ncalls = 10 + rng.below(16);
     for _ in 0..ncalls {
         let k = rng.pick(&keys).to_vec();
